@@ -297,7 +297,31 @@ func genKeysInput(t *rapid.T) interface{} {
 	if pct(t, "other_kind", 30) {
 		k2 = pick(t, "kind2", lrecKinds)
 	}
-	return &keysInput{R1: genLRec(t, "r1", k1), R2: genLRec(t, "r2", k2)}
+	in := &keysInput{R1: genLRec(t, "r1", k1), R2: genLRec(t, "r2", k2)}
+	if k1 == k2 && pct(t, "one_field_apart", 60) {
+		// the second record is the first with exactly one component drawn afresh: collisions caused by a
+		// component that does not reach the key show up at once
+		fresh := genLRec(t, "r2b", k1)
+		r := in.R1
+		switch pick(t, "field", []string{"ctx", "name", "a", "b", "counter", "h", "index"}) {
+		case "ctx":
+			r.Ctx = fresh.Ctx
+		case "name":
+			r.Name = fresh.Name
+		case "a":
+			r.A = fresh.A
+		case "b":
+			r.B = fresh.B
+		case "counter":
+			r.Counter = fresh.Counter
+		case "h":
+			r.H = fresh.H
+		case "index":
+			r.Index = fresh.Index
+		}
+		in.R2 = r
+	}
+	return in
 }
 
 func checkKeys(x interface{}) (*Violation, []string, bool) {
